@@ -535,8 +535,41 @@ fn hist_case(ops: &Vec<HistOp>, acc: &mut Acc) -> R {
     Ok(())
 }
 
+// --- JSON texts that are not objects ---------------------------------------------------------
+
+/// arrays (of every length 0..9, with elements that would fit the claims positionally), scalars,
+/// strings: a generic JSON parser reads no member from them, so a successful decode may not
+/// produce any claim
+fn non_object_case(c: &(u8, u8, String), acc: &mut Acc) -> R {
+    let (len, style, text) = (c.0 % 10, c.1 % 4, &c.2);
+    let s = serde_json::to_string(text).unwrap();
+    let stamp = "\"2039-01-01T00:00:00Z\"";
+    let elems: Vec<String> = (0..len)
+        .map(|i| match style {
+            0 => "null".to_string(),
+            1 => if (3..6).contains(&i) { stamp.to_string() } else { s.clone() },
+            2 => if i % 2 == 0 { s.clone() } else { "null".to_string() },
+            _ => i.to_string(),
+        })
+        .collect();
+    let texts = [format!("[{}]", elems.join(",")), s.clone(), "null".to_string(), "true".to_string(), len.to_string(), format!("[[{}]]", elems.join(","))];
+    for t in texts {
+        if let Ok(cl) = RegisteredClaims::decode(t.as_bytes()) {
+            let any = cl.iss.is_some() || cl.sub.is_some() || cl.aud.is_some() || cl.exp.is_some() || cl.nbf.is_some() || cl.iat.is_some() || cl.jti.is_some();
+            ensure!(!any, "C14/claims/non-object-decoded-to-claims", "the JSON text {t} is not an object, yet it decoded to claims {:?}", (cl.iss, cl.sub, cl.aud, cl.exp, cl.nbf, cl.iat, cl.jti));
+            acc.class("non-object:accepted-as-empty-claims");
+        } else {
+            acc.class("non-object:rejected");
+        }
+    }
+    acc.eval();
+    acc.nt(hash_of(c));
+    Ok(())
+}
+
 pub fn def() -> PropertyDef {
     let subs = vec![
+        SubCheck::prop("c14.non-object", 1, (1000, 20000), |_t| (any::<u8>(), any::<u8>(), string_strategy()), non_object_case),
         SubCheck::prop("c14.history", 1, (5000, 100000), |_t| hist_strategy(), hist_case),
         SubCheck::prop("c14.claims-roundtrip", 2, (20000, 400000), |_t| claims_strategy(), roundtrip_case),
         SubCheck::prop("c14.claims-text", 2, (20000, 400000), |_t| text_strategy(), text_case),
@@ -557,7 +590,7 @@ pub fn def() -> PropertyDef {
     PropertyDef {
         id: "C14",
         level: "exploration",
-        rule: "(a) proptest RegisteredClaims (7 fields absent/present; strings over all of Unicode incl. NUL, quotes, backslash, U+2028, surrogate-adjacent code points, U+10FFFF; timestamps over jiff's range at ns resolution): decode(encode(c)) == c field-wise, the wire form parses with serde_json::Value to an object whose member set is exactly the present claims, strings byte for byte, timestamps (years 0000..9999) accepted by an own strict RFC 3339 reader and denoting the same instant; (b) generated JSON object texts (registered and look-alike keys, member names spelled plainly or with \\uXXXX escapes, strings, nulls, wrong types, nested objects re-using claim names, timestamps written from civil components with 0-9 fraction digits and numeric offsets, arbitrary order, duplicates): when decode succeeds every registered claim equals what a generic parser reads for that member (last duplicate; instants computed by the generator, not by jiff); objects with well-typed members, no duplicates and arbitrary extras must decode; (c) Json<T> payload/footer equal serde_json::to_vec / from_slice on generated Value trees and a typed struct; empty Json footer is an error; (d) histories on one thread mixing encodes / decodes that fail (a Serialize impl failing after it emitted output, non-string map keys, truncated JSON) with checked encodes and decodes: a failed operation leaves nothing behind. Non-trivial iff 1..6 fields present / an extra, duplicate or >= 2 members / a container value",
+        rule: "(a) proptest RegisteredClaims (7 fields absent/present; strings over all of Unicode incl. NUL, quotes, backslash, U+2028, surrogate-adjacent code points, U+10FFFF; timestamps over jiff's range at ns resolution): decode(encode(c)) == c field-wise, the wire form parses with serde_json::Value to an object whose member set is exactly the present claims, strings byte for byte, timestamps (years 0000..9999) accepted by an own strict RFC 3339 reader and denoting the same instant; (b) generated JSON object texts (registered and look-alike keys, member names spelled plainly or with \\uXXXX escapes, strings, nulls, wrong types, nested objects re-using claim names, timestamps written from civil components with 0-9 fraction digits and numeric offsets, arbitrary order, duplicates): when decode succeeds every registered claim equals what a generic parser reads for that member (last duplicate; instants computed by the generator, not by jiff); objects with well-typed members, no duplicates and arbitrary extras must decode; JSON texts that are not objects (arrays of 0..9 elements incl. elements that would fit the seven claims positionally, scalars, strings) never decode to any claim; (c) Json<T> payload/footer equal serde_json::to_vec / from_slice on generated Value trees and a typed struct; empty Json footer is an error; (d) histories on one thread mixing encodes / decodes that fail (a Serialize impl failing after it emitted output, non-string map keys, truncated JSON) with checked encodes and decodes: a failed operation leaves nothing behind. Non-trivial iff 1..6 fields present / an extra, duplicate or >= 2 members / a container value",
         assumptions: vec!["leap seconds (:60) are not generated (jiff clamps them; the generator's own arithmetic would not)", "negative and 5-digit years are checked for round-trip only (outside RFC 3339)"],
         subs,
     }
